@@ -784,7 +784,10 @@ def _process_set(job):
                     if "/support/" in rel and not job.get("compile_support"):
                         continue  # identical in every set (depends on the configuration only): compiled once, by the design probe
                     macros = None
-                    mytools = tools[::2] if job.get("light") and rel.startswith(job["light"]) else tools
+                    mytools = tools
+                    if job.get("light") and rel.startswith(job["light"]):
+                        # dependants in the quick tier: every other tool, and only the C, oldest C++ and pmr configurations
+                        mytools = tools[::2] if cfg in ("c", "cpp14", "cpp17pmr") else []
                     for tid, argv in mytools:
                         if tid.endswith("-use"):
                             # C constants are object-like macros: their literals are only diagnosed where they are expanded
@@ -1103,8 +1106,8 @@ def emit_names(ctx):
 
 
 def select_name_cases(ctx, cases):
-    """thorough: the whole product.  quick: a deterministic covering subset - every (position, class, word) with the kind rotating,
-    and every (kind, position) with class and word rotating - so that the verdict does not depend on the seed."""
+    """quick: a deterministic covering subset - every (position, class) with the kind rotating, and every (kind, position) for the
+    positions the kind-specific templates treat differently with class and word rotating - independent of the seed."""
     cases = sorted(cases, key=lambda c: (c["pos"], c["cls"], c["w"], c["kind"]))
     if not ctx.quick:
         # thorough: the whole product for the first two words of every class, further words with the kind rotating
@@ -1130,7 +1133,8 @@ def select_name_cases(ctx, cases):
         sel[(c["pos"], c["cls"], c["w"], c["kind"])] = c
     by2 = {}
     for c in cases:
-        by2.setdefault((c["kind"], c["pos"]), []).append(c)
+        if c["pos"] in ("type", "field", "const"):  # the positions the kind-specific templates treat differently
+            by2.setdefault((c["kind"], c["pos"]), []).append(c)
     for n, (k, lst) in enumerate(sorted(by2.items())):
         lst = [c for c in lst if c["w"] == 2 + n % 2] or lst
         c = lst[(n * 5) % len(lst)]
@@ -1197,14 +1201,14 @@ def run(ctx):
 
     # ---- 2. spec -> code: worlds of the model
     worlds = emit_worlds(ctx, design)
-    stride = ctx.pick(max(1, len(worlds) // 260), max(1, len(worlds) // 2600))
+    stride = ctx.pick(max(1, len(worlds) // 160), max(1, len(worlds) // 2400))
     chosen = [(i, w) for i, w in enumerate(worlds) if i % stride == 0]
     wjobs, wsets = [], []
     for n, (i, w) in enumerate(chosen):
         sset = world_set(w, i)
         cfgs = ALL_CFGS if n % ctx.pick(13, 5) == 0 else ["c", "cpp17", "py"]
         modes = omodes
-        do_compile = n % ctx.pick(6, 2) == 0
+        do_compile = n % ctx.pick(8, 3) == 0
         wsets.append((sset, cfgs, modes))
         wjobs.append(mkjob(ctx, sset, [(c, m) for c in cfgs for m in modes], tools, compile_=do_compile))
     for (sset, cfgs, modes), r in zip(wsets, run_jobs(ctx, wjobs)):
@@ -1253,7 +1257,7 @@ def run(ctx):
     camp.judge()
 
     # ---- 4. code -> spec: larger random sets and the trees shipped in the repository
-    rsets = [random_set(ctx.rng, i) for i in range(ctx.pick(12, 160))]
+    rsets = [random_set(ctx.rng, i) for i in range(ctx.pick(8, 120))]
     usets = repo_sets()
     rjobs = [mkjob(ctx, s, [(cfg, m) for cfg in ALL_CFGS for m in omodes], tools) for s in rsets]
     rjobs += [mkjob(ctx, s, [(cfg, m) for cfg in (ALL_CFGS if not ctx.quick else ["c", "cpp14", "cpp17pmr", "py"]) for m in omodes], tools) for s in usets]
